@@ -179,23 +179,38 @@ PROPS['C04'] = dict(
 )
 
 PROPS['C05'] = dict(
-    modules=['contracts.dtw_c'],
-    contracts=[],
-    lemmas=[],
+    modules=['contracts.dtw_c', 'contracts.paths_py'],
+    contracts=['dtw.best_path', 'dtw.best_path#wf', 'dtw.warping_path'],
+    lemmas=['WNonneg'],
     bounded=dict(_CM, **{'path-validity-native-sweep': lambda run: _native_sweep(
         'paths_native.py',
         'random small pairs x window/penalty/psi/inner distance x {warping_path, warping_path_fast, best_path on a Python matrix, '
         'best_path on a C matrix}: contiguous monotone steps, inside the band, psi-relaxed corners, accumulated cost == distance',
         1500, 15000)(run)}),
-    level='exploration',
-    level_text='Bounded stand-in only: the traceback routines are not under contract. Every path route of both engines is swept '
-               'on small inputs against the path definition of the property; the C routines additionally run in sanitizer chains.',
-    level_note='No unbounded claim. Four families of genuine defects are recorded (KF-C05-1..4): psi relaxation, Python penalty, '
-               'dropped inner_dist in warping_path_fast, out-of-band cells of the C matrix.',
-    trusted_base=[],
-    assumptions=['bounded: lengths <= 6 (native), <= 4/5 (chains)'],
-    not_decided=['unbounded contracts for dtw.best_path / dtw_best_path* (termination, step shape, bounds are provable; value part needs C04)'],
-    technique='bounded sweep of the real path routines (stand-in; traceback contracts are not written)',
+    level='proof',
+    level_text='Python engine, no psi relaxation: dtw.best_path is proved, for every matrix without -1 marks and every penalty, to '
+               'return a non-empty list of index pairs that ends in the lower-right corner, starts on the first row or column, '
+               'stays inside the matrix, uses only the steps (1,1), (1,0), (0,1), and goes back at every step to the first least '
+               'of the three candidates [diagonal, up + penalty, left + penalty]; on a matrix shaped like a cost matrix (infinite '
+               'borders, every finite cell has a finite candidate) it starts in (0, 0) and visits finite cells only. '
+               'dtw.warping_path is proved on top of the contracts of dtw.warping_paths (C04) and dtw.best_path: for all lengths, '
+               'windows, penalties, max_step, both inner distances, whenever a path exists the result is a contiguous monotone path '
+               'from (0, 0) to (r-1, c-1) whose cells all have finite accumulated cost (so inside the window band and within '
+               'max_step). All other routes (psi relaxation, C engine, compact matrices, custom start cell) and the clause '
+               '"accumulated cost equals the distance" are bounded sweeps of the real routines only.',
+    level_note='Trusted: dvc Python semantics incl. list append / pop / reverse and np.argmin = first minimum (A1, A3), order axioms '
+               'of non-NaN doubles, IEEE facts sqrt(x) >= 0, sqrt monotone, x + 0 == x, adding a non-negative term does not decrease, '
+               'solvers (A7). Lemma WNonneg (W >= 0) by induction on the anti-diagonal. Genuine defects recorded by the sweep: '
+               'KF-C05-1..3 (psi relaxation, Python penalty ignored by warping_path, dropped inner_dist in warping_path_fast).',
+    trusted_base=[PY_A1, A3_NUMPY, A7],
+    assumptions=[PY_A1, A3_NUMPY, A7, 'bounded part: lengths <= 6 (native), <= 4/5 (chains)'],
+    not_decided=['accumulated cost along the path == distance: bounded only (needs the argmin of square-rooted cells to be the argmin '
+                 'of the cells, which fails at rounding level for the squared inner distance, and the penalty that dtw.warping_path '
+                 'does not pass on: KF-C05-2)',
+                 'psi-relaxed start / end cells and the -1 marks: bounded only', 'C traceback routines dtw_best_path*: bounded only '
+                 '(sanitizer chains + native sweep)', 'dtw_ndim.warping_path, custom start cell (row / col): bounded only'],
+    technique='sidecar contracts on the real dtw.best_path and dtw.warping_path (modular: callee contracts at the two calls), VCs '
+              'discharged by z3 / cvc5; symbolic lists of index pairs; bounded sweep of all path routines of both engines',
 )
 
 
